@@ -267,8 +267,11 @@ impl Property for C03 {
     fn id(&self) -> &'static str {
         "C03"
     }
+    fn regimes(&self) -> &'static str {
+        crate::gen::REGIMES_CATALOGUE
+    }
     fn rule(&self) -> String {
-        "proptest: problem cases as for C01 (no deliberately duplicated terms; shared parameters arise whenever P < total arity), visited at construction, after caller updates and along an LM run. Oracle per Jacobian column k and right-hand side s, under the full-rank premise (rank class clear-full): (a) |A^T J_k| ~ 0 (kappa-free), (b) J_k + W D_k C in range(A), (c) J_k = -(I-P) W D_k C with the harness' own projector, (d) 2 J^T r against Richardson-extrapolated central differences of the oracle's projected objective, (e) every derivative call of jacobian() made to fail in turn (hand-written: injected errors, transient and persistent; builder-made: wrong-length closures) must give None. Non-trivial: clear-full, some W D_k C != 0, not stationary, and S>1 or shared parameter or non-unit weights".into()
+        "proptest: problem cases as for C01 (no deliberately duplicated terms; shared parameters arise whenever P < total arity), visited at construction, after caller updates and along an LM run. Oracle per Jacobian column k and right-hand side s, under the full-rank premise (rank class clear-full): (a) |A^T J_k| ~ 0 (kappa-free), (b) J_k + W D_k C in range(A), (c) J_k = -(I-P) W D_k C with the harness' own projector, (d) 2 J^T r against Richardson-extrapolated central differences of the oracle's projected objective, (e) every derivative call of jacobian() made to fail in turn (hand-written: injected errors, transient and persistent; builder-made: wrong-length closures) must give None. Non-trivial: clear-full, some W D_k C != 0, not stationary, and S>1 or shared parameter or non-unit weights One case in eight carries a complex-valued companion problem (damped complex oscillations built with SeparableModelBuilder<Complex<f64>>, complex weights, all four constructors, caller updates): orthogonality to the range and the Kaufman formula with the projector U U^H, with the harness' real Jacobi SVD applied to [Re A, -Im A; Im A, Re A].".into()
     }
     fn assumptions(&self) -> Vec<String> {
         vec![
